@@ -187,10 +187,19 @@ def r_cursor_count(cx, tags):
                     and field_chain(x["recv"])[-1] == "chars"]
 
         def offset_adds(root):
+            """`self.char_offset += e` and `self.char_offset = self.char_offset + e` (either operand order);
+            returned with the node normalised so that node["r"] is the amount e."""
             out = []
             for x, par in live_walk(root):
                 if x.get("k") == "AssignOp" and x.get("op") == "AddAssign" and is_self_field(x["l"], "char_offset"):
                     out.append((x, par))
+                elif x.get("k") == "Assign" and is_self_field(x["l"], "char_offset"):
+                    r = F.strip(x["r"])
+                    if r.get("k") == "Binary" and r.get("op") == "Add":
+                        if is_self_field(r["l"], "char_offset"):
+                            out.append(({"k": "AssignOp", "op": "AddAssign", "l": x["l"], "r": r["r"], "sp": x.get("sp")}, par))
+                        elif is_self_field(r["r"], "char_offset"):
+                            out.append(({"k": "AssignOp", "op": "AddAssign", "l": x["l"], "r": r["l"], "sp": x.get("sp")}, par))
             return out
         # advance: one next(), one unconditional `char_offset += 1` after it
         nc = next_calls(adv["hir"])
@@ -583,40 +592,10 @@ def r_unsafe_guard(cx, fx):
     cx.count(rule, "unsafe_blocks", n)
 
 
-def r_bom_order(cx, fx):
-    """BOM is skipped before the first offsets are taken and the first line is added with them (C17/C02)."""
-    rule = "R-BOM-ORDER"
+def r_bom_const(cx, fx):
+    """The byte-order mark is looked at nowhere but in Lexer::new (what `new` does with it: LEA rule R-BOM-ORDER)."""
+    rule = "R-BOM-USERS"
     cx.rules_run.append(rule)
-    new = fx.fn("Lexer::new")
-    if new is None:
-        cx.violation(rule, "anchors", "", "Lexer::new not found")
-        return
-    order = []
-    for s in top_level_stmts(new["hir"]):
-        txt = None
-        for x, _ in F.walk(s):
-            if x.get("k") == "MethodCall" and x.get("name") == "eat_char":
-                c = F.const_of(F.strip(x["args"][0]))
-                txt = "eat_bom" if c and c.endswith("BOM") else "eat_char"
-            elif x.get("k") == "MethodCall" and x.get("name") == "remaining_len" and txt is None:
-                txt = "byte_snapshot"
-            elif x.get("k") == "MethodCall" and x.get("name") == "add_line" and txt is None:
-                txt = "add_line"
-        if txt:
-            order.append(txt)
-    ok = "eat_bom" in order and "byte_snapshot" in order and "add_line" in order and \
-        order.index("eat_bom") < order.index("byte_snapshot") < order.index("add_line")
-    cx.ob(rule, "new|order", ok, new["span"],
-          "Lexer::new eats the BOM, then snapshots the offsets, then adds the first line" if ok else
-          "Lexer::new does not eat the BOM before taking the first offsets / adding the first line (order: %s)" % order)
-    # the first add_line receives the snapshots
-    ok2 = False
-    for x, _ in F.walk(new["hir"]):
-        if x.get("k") == "MethodCall" and x.get("name") == "add_line":
-            names = [field_chain(a)[-1] for a in x["args"]]
-            ok2 = names == ["cur_token_byte_offset", "cur_token_start"]
-    cx.ob(rule, "new|first-line", ok2, new["span"], "first line starts at the post-BOM byte/char offsets" if ok2 else "first line is not added with the post-BOM offsets")
-    # BOM constant referenced only in Lexer::new
     users = []
     for fname, b in fx.bodies.items():
         if fx.is_derive(fname) or b["kind"] not in ("Fn", "AssocFn"):
@@ -624,42 +603,110 @@ def r_bom_order(cx, fx):
         for x, _ in F.walk(b["hir"]):
             if x.get("k") == "Path" and (F.const_of(x) or "").endswith("::BOM") or (x.get("k") == "Path" and F.const_of(x) == "BOM"):
                 users.append(fname)
-            if x.get("k") == "Lit" and x.get("v") == "﻿":
+            if x.get("k") == "Lit" and x.get("v") == "\ufeff":
                 users.append(fname)
-    cx.ob(rule, "bom-users", set(users) <= {"Lexer::new"}, "", "the BOM is only looked at in Lexer::new" if set(users) <= {"Lexer::new"} else "BOM referenced in %s" % sorted(set(users)))
-    cx.count(rule, "steps", len(order))
+    cx.ob(rule, "bom-users", bool(users) and set(users) <= {"Lexer::new"}, "",
+          "the BOM is only looked at in Lexer::new" if users and set(users) <= {"Lexer::new"} else "BOM referenced in %s" % sorted(set(users)))
+    cx.count(rule, "users", len(users))
 
 
 def r_eof(cx, fx):
     """TokenType::EOF is produced only by finalize_lexing and the into_detached fallback; lex() ends through them."""
     rule = "R-EOF"
     cx.rules_run.append(rule)
+    # producer uses of the constant: an argument of a call, a struct-literal field, the right side of an assignment
+    # (comparisons and patterns only *look* at the type)
     users = {}
+    callers = {}
     for fname, b in fx.bodies.items():
         if fx.is_derive(fname) or b["kind"] not in ("Fn", "AssocFn") or b["hir"].get("exp"):
             continue   # (bodies generated by derive macros are expansion-rooted)
         for x, par in F.walk(b["hir"]):
+            if x.get("k") in ("Call", "MethodCall") and not x.get("exp"):
+                d = F.norm(x.get("def") or "")
+                if d in fx.bodies:
+                    callers.setdefault(d, set()).add(fname)
             if x.get("k") == "Path" and F.const_of(x) == "token_type::TokenType::EOF" and not x.get("exp"):
-                in_pat = False
-                users.setdefault(fname, 0)
-                users[fname] += 1
+                produced = False
+                child = x
+                for p in reversed(par):
+                    k = p.get("k")
+                    if k in ("Call", "MethodCall"):
+                        produced = any(a is child or contains(a, lambda y: y is x) for a in F.call_args(p))
+                        break
+                    if k == "Struct":
+                        produced = True
+                        break
+                    if k == "Assign":
+                        produced = p.get("r") is child or contains(p["r"], lambda y: y is x)
+                        break
+                    if k in ("Binary", "Match", "If", "Let", "LetCond", "Block", "BlockExpr") and k != "BlockExpr":
+                        break
+                    child = p
+                if produced:
+                    users.setdefault(fname, 0)
+                    users[fname] += 1
     allowed = {"Lexer::finalize_lexing", "buffer::WorkTokenizedBuffer::into_detached"}
-    extra = {k: v for k, v in users.items() if k not in allowed and not k.startswith("buffer::TokenizedBuffer") and "tests" not in k}
-    cx.ob(rule, "eof-producers", not extra, "", "EOF tokens are produced only in finalize_lexing / into_detached" if not extra else
-          "TokenType::EOF used as a value in %s" % sorted(extra))
+    # a helper that produces EOF is fine when every call of it (transitively) comes from the allowed functions
+    ok_fns = set(allowed)
+    changed = True
+    while changed:
+        changed = False
+        for fn in list(users):
+            if fn in ok_fns:
+                continue
+            cs = callers.get(fn, set())
+            if cs and cs <= ok_fns:
+                ok_fns.add(fn)
+                changed = True
+    extra = {k: v for k, v in users.items() if k not in ok_fns and not k.startswith("buffer::TokenizedBuffer") and "tests" not in k}
+    cx.ob(rule, "eof-producers", not extra and bool(users), "", "EOF tokens are produced only in finalize_lexing / into_detached (or helpers only they call)" if not extra and users else
+          "TokenType::EOF is produced in %s, reachable from outside finalize_lexing / into_detached" % sorted(extra))
     lex = fx.fn("Lexer::lex")
     ok = False
+    why = "Lexer::lex not found"
     if lex:
+        def calls_finalize(node, depth=0):
+            for x, _ in F.walk(node):
+                if x.get("k") in ("Call", "MethodCall"):
+                    d = F.norm(x.get("def") or "")
+                    if d == "Lexer::finalize_lexing":
+                        return True
+                    if depth < 2 and d in fx.bodies and d.startswith("Lexer::") and d != "Lexer::lex_token":
+                        if calls_finalize(fx.bodies[d]["hir"], depth + 1):
+                            return True
+            return False
         stmts = top_level_stmts(lex["hir"])
-        names = []
-        for s in stmts:
-            for x, _ in F.walk(s):
-                if x.get("k") == "MethodCall" and x.get("name") in ("finalize_lexing", "into_detached"):
-                    names.append(x["name"])
-        tail = [n for n in names if n in ("finalize_lexing", "into_detached")]
-        ok = "finalize_lexing" in tail and tail[-1] == "into_detached" and tail.index("finalize_lexing") < len(tail) - 1
-    cx.ob(rule, "lex|tail", ok, lex["span"] if lex else "", "lex() ends with finalize_lexing() then into_detached()" if ok else
-          "lex() does not end with finalize_lexing() followed by into_detached()")
+        loop_at = None
+        for n_, st_ in enumerate(stmts):
+            if contains(st_, lambda y: y.get("k") == "Loop" and contains(y, lambda z: z.get("k") in ("Call", "MethodCall") and F.norm(z.get("def") or "") == "Lexer::lex_token")):
+                loop_at = n_
+        after = stmts[loop_at + 1:] if loop_at is not None else []
+        fin = any(calls_finalize(st_) for st_ in after)
+        # every LexResult built in non-test code takes its buffer from into_detached()
+        bad_results = []
+        nres = 0
+        for fname, b in fx.bodies.items():
+            if fx.is_derive(fname) or "tests" in fname or b["kind"] not in ("Fn", "AssocFn"):
+                continue
+            for x, _ in F.walk(b["hir"]):
+                if x.get("k") == "Struct" and (x.get("path") or x.get("ty") or "").endswith("LexResult"):
+                    nres += 1
+                    for f in x.get("fields", []):
+                        if f.get("name") == "buffer":
+                            e = F.strip(f["e"])
+                            src = [e]
+                            if e.get("k") == "Path" and "local" in e.get("res", {}):
+                                lid = e["res"]["local"]
+                                src = [y["init"] for y, _ in F.walk(b["hir"]) if y.get("k") == "Let" and y.get("pat", {}).get("k") == "Bind"
+                                       and y["pat"].get("id") == lid and y.get("init")]
+                            if not src or not all(contains(q, lambda y: y.get("k") == "MethodCall" and y.get("name") == "into_detached") for q in src):
+                                bad_results.append(fname)
+        ok = loop_at is not None and fin and not bad_results and nres > 0
+        why = ("lex(): after the token loop finalize_lexing() runs, and every LexResult takes its buffer from into_detached()" if ok else
+               "lex(): %s" % ("no lex_token loop found" if loop_at is None else "finalize_lexing() is not called after the token loop" if not fin
+                              else "a LexResult is built without into_detached() in %s" % sorted(set(bad_results)) if bad_results else "no LexResult literal found"))
+    cx.ob(rule, "lex|tail", ok, lex["span"] if lex else "", why)
     cx.count(rule, "producers", len(users))
 
 
